@@ -49,12 +49,13 @@ S_ATOMS = {   # the view a criterion has of the structure it is asked about
     "hasattr(x, 'item')": ('amb_hasItem', 'Bool'),
     'x.item()': ('x_', 'Int'),          # a NumPy scalar's .item() is the same number as a Python scalar
     'x': ('x_', 'Int'),
+    'top': ('top_', 'Int'), 'base': ('base_', 'Int'),
 }
 
 FRAGS = [
     # ------------------------------------------------------------------ pruning.py
     Frag('min_delta', 'astrodendro/pruning.py', 'min_delta.result',
-         dict({'delta': ('delta', 'Int')}, **S_ATOMS), inline=['_py'], param_types=S_PTYPES, props=['C04', 'C05', 'C07', 'C08'],
+         dict({'delta': ('delta', 'Int')}, **S_ATOMS), inline=['_py', '_diff'], param_types=S_PTYPES, props=['C04', 'C05', 'C07', 'C08'],
          doc='`pruning.min_delta(delta)`: the three calling modes'),
     Frag('min_npix', 'astrodendro/pruning.py', 'min_npix.result',
          {'npix': ('npix', 'Int'), 'len(structure.values())': ('s_npix', 'Int')}, props=['C04', 'C05', 'C07', 'C08'],
